@@ -3,6 +3,8 @@ import re
 from mir import Origins, Origin, strip, short_span
 from e1 import (classify_ext, field_accesses, uses_of_local, consumers_of, all_place_uses, call_sites)
 
+LEVEL = "proof"
+
 HASH_ITER = re.compile(
     r"^std::collections::(HashMap|HashSet)::<.*>::(iter|iter_mut|values|values_mut|keys|drain|retain|into_keys|into_values|extract_if)$"
     r"|^<(&mut |&)?std::collections::(HashMap|HashSet)<.*> as std::iter::IntoIterator>::into_iter$")
